@@ -159,7 +159,7 @@ func refRecurrent(c rnnCase, inputForget bool) (Y, Yh, Yc []float64, ok bool) {
 
 func genRnnCase(rt *rapid.T) rnnCase {
 	var c rnnCase
-	c.kind = rapid.SampledFrom([]string{"RNN", "GRU", "LSTM"}).Draw(rt, "kind")
+	c.kind = drawOp(rt, []string{"RNN", "GRU", "LSTM"})
 	c.S = rapid.SampledFrom([]int{1, 2, 2, 3, 4, 5, 8}).Draw(rt, "seq")
 	c.B = rapid.SampledFrom([]int{1, 1, 2, 3, 4}).Draw(rt, "batch")
 	c.I = rapid.SampledFrom([]int{1, 2, 2, 3, 4}).Draw(rt, "input")
